@@ -6,7 +6,7 @@ from vlib import env, core, geom, plugin_harness, stateful  # noqa: F401
 from vlib.plugin_harness import Harness
 
 ID = "C13"
-BUDGET = {"quick": 1200, "thorough": 6000}
+BUDGET = {"quick": 1500, "thorough": 6000}
 STEPS = {"quick": 30, "thorough": 60}
 RULE = ("RuleBasedStateMachine over the plugin's API and events: add (explicit fresh id, no id, duplicate id), update (known id "
         "with grown / shrunk / identical / type-changed geometry, unknown id, missing id), delete (known / unknown id), requests "
